@@ -972,3 +972,13 @@ func init() {
 		return Str{Fn: FnAtom{s}, Off: c0, Len: strlenOf(s)}
 	}
 }
+
+func init() {
+	// vRepeats(n): how often a harness repeats a call whose answer must not depend on Go's
+	// randomised map iteration. Symbolically one repetition suffices (every iteration order of
+	// every map range is a solver choice, independently per call); natively the order is random,
+	// so the replay repeats n times to observe a differing order with probability 1 - 2^-n.
+	extraIntrinsics["vRepeats"] = func(e *Exec, fn *ssa.Function, args []Value) Value {
+		return c1
+	}
+}
